@@ -2,6 +2,7 @@
 import re
 from analysis.engine import rule, AnchorMissing
 from analysis import cfg
+from analysis.facts import norm_path
 from analysis.sym import sym, show_in, nosite, peel, core, walk, ret_values, args_of, guards_at, atoms_at, \
     variant_facts_at, cmp_facts_at
 from analysis.pat import match, Call, Cap, ANY, Pred, Const, has, chain_names
@@ -172,3 +173,37 @@ def r5(ctx):
     # no take_hook / second set_hook afterwards in Pipe::new
     others = [t for t in n.calls(r'panic::take_hook$')]
     ctx.require(not others, n, 'hook-not-removed', 'Pipe::new does not remove the hook again', None)
+
+
+@rule('C09', 'R-C09-6', 'T10 WHO (producers are detached, the consumer never waits for them)',
+      'the loader never joins a producer thread and implements no Drop that receives from a channel: a consumer that waits for a '
+      'producer while its own Receiver is still alive is wedged as soon as the producer blocks on the full channel (dropping a '
+      'partially consumed iterator must return at once and let the producer see the closed channel)')
+def r6(ctx):
+    spawns = []
+    for b in ctx.facts.bodies:
+        if not b.file().startswith('src/data/'):
+            continue
+        for t in b.calls(r'thread::Builder::spawn$|thread::spawn$|Builder::spawn_scoped$|thread::scope$'):
+            spawns.append((b, t))
+        for t in b.calls(r'JoinHandle.*::join$|ScopedJoinHandle.*::join$'):
+            ctx.fail(b, 'join', 'a loader thread is joined at line %d in %s: the joining side blocks for as long as the thread does (a producer blocked on a '
+                     'full channel never returns)' % (t.span['line'], norm_path(b.path)), t.span)
+        if b.impl_trait and norm_path(b.impl_trait).endswith('ops::Drop'):
+            for t in b.calls(r'mpsc::Receiver.*::(recv|try_recv|recv_timeout|iter|try_iter)$|JoinHandle.*::join$'):
+                ctx.fail(b, 'blocking-drop', 'Drop of %s receives / joins at line %d' % (b.impl_self, t.span['line']), t.span)
+    if len(spawns) < 2:
+        raise AnchorMissing('thread spawns of the loader (found %d)' % len(spawns))
+    for b, t in spawns:
+        ctx.stats['bodies_inspected'].add(b.path)
+        # the JoinHandle is not kept: it does not flow into a returned / stored aggregate
+        h = nosite(sym(b, t.dest))
+        kept = []
+        for v, bb in ret_values(b):
+            if any(isinstance(x, tuple) and nosite(x) == h for x in walk(v)):
+                kept.append('returned value')
+        for s in b.stmts():
+            if s.kind == 'assign' and s.lhs.proj and any(isinstance(x, tuple) and nosite(x) == h for x in walk(sym(b, s.rv.ops[0]) if s.rv.ops else ())):
+                kept.append('store at line %d' % s.span['line'])
+        ctx.require(not kept, b, 'detached', 'the thread spawned at line %d is detached (its JoinHandle is dropped)' % t.span['line'],
+                    'the JoinHandle of the thread spawned at line %d is kept (%s): whoever waits on it blocks with the producer' % (t.span['line'], ', '.join(kept)), t.span)
